@@ -628,7 +628,7 @@ impl<'a, R: Read> ThriftCompactInputProtocol<'a> for ThriftReadInputProtocol<R> 
 
     fn read_bytes_owned(&mut self) -> ThriftProtocolResult<Vec<u8>> {
         let len = self.read_vlq()? as usize;
-        let mut v = Vec::with_capacity(len);
+        let mut v = vec_with_bounded_capacity(len);
         std::io::copy(&mut self.reader.by_ref().take(len as u64), &mut v)?;
         Ok(v)
     }
@@ -721,12 +721,25 @@ where
 {
     let list_ident = prot.read_list_begin()?;
     validate_list_type(T::ELEMENT_TYPE, &list_ident)?;
-    let mut res = Vec::with_capacity(list_ident.size as usize);
+    let mut res = vec_with_bounded_capacity(list_ident.size as usize);
     for _ in 0..list_ident.size {
         let val = T::read_thrift(prot)?;
         res.push(val);
     }
     Ok(res)
+}
+
+/// Upper bound on the number of bytes pre-allocated for a collection whose length was
+/// read from the input. The length of a list or byte string is not validated against the
+/// remaining input, so a corrupt or malicious value must not translate into an allocation
+/// of that size; collections grow as their elements are actually decoded.
+pub(crate) const MAX_PREALLOC_BYTES: usize = 1024 * 1024;
+
+/// Returns an empty `Vec` able to hold `len` elements, pre-allocating at most
+/// [`MAX_PREALLOC_BYTES`].
+pub(crate) fn vec_with_bounded_capacity<T>(len: usize) -> Vec<T> {
+    let max_elements = MAX_PREALLOC_BYTES / std::mem::size_of::<T>().max(1);
+    Vec::with_capacity(len.min(max_elements))
 }
 
 pub(crate) fn validate_list_type(expected: ElementType, got: &ListIdentifier) -> Result<()> {
